@@ -3,6 +3,7 @@ package cyref
 import (
 	"fmt"
 	"sort"
+	"strings"
 
 	"github.com/specterops/dawgs/cypher/models/cypher"
 	cyfmt "github.com/specterops/dawgs/cypher/models/cypher/format"
@@ -147,6 +148,19 @@ func (e *Evaluator) reading(clauses []*cypher.ReadingClause, rows []Env) ([]Env,
 					dup[envKey(r, e.carried)]++
 				}
 			}
+			if _, _, ok := splitOptional(m); ok && e.Dev.MultiStepOptionalMatchIsPlainMatch {
+				cp := *m
+				cp.Optional = false
+				m = &cp
+			}
+			if named, prefix, ok := splitOptional(m); ok && e.Dev.OptionalMatchInnerJoinsLeadingSteps {
+				out, err := e.optionalLastStepOnly(m, named, prefix, rows)
+				if err != nil {
+					return nil, err
+				}
+				rows = out
+				continue
+			}
 			for _, r := range rows {
 				matched := false
 				times := 1
@@ -154,7 +168,18 @@ func (e *Evaluator) reading(clauses []*cypher.ReadingClause, rows []Env) ([]Env,
 					times = n
 				}
 				var innerErr error
-				err := e.matchPattern(m.Pattern, r, func(env Env) bool {
+				pattern := m.Pattern
+				if m.Optional && e.Dev.OptionalMatchNullBindingLosesMatch {
+					for k, v := range r {
+						if v == nil && (e.carried == nil || e.carried[k]) {
+							pattern = nil
+						}
+					}
+				}
+				err := e.matchPattern(pattern, r, func(env Env) bool {
+					if pattern == nil {
+						return false
+					}
 					if m.Where != nil {
 						v, err := e.Eval(m.Where, env)
 						if err != nil {
@@ -627,4 +652,115 @@ func referencedOutsideFirstUse(q *cypher.RegularQuery) map[string]bool {
 		}
 	}
 	return out
+}
+
+const syntheticPrefix = " anon"
+
+// splitOptional prepares the emulation of OptionalMatchInnerJoinsLeadingSteps for an OPTIONAL MATCH of one pattern
+// part with at least two relationship steps: named is the part with every anonymous node and relationship pattern
+// given a synthetic variable, prefix is named without its last step.
+func splitOptional(m *cypher.Match) (named, prefix *cypher.PatternPart, ok bool) {
+	if !m.Optional || len(m.Pattern) != 1 {
+		return nil, nil, false
+	}
+	part := m.Pattern[0]
+	if part.ShortestPathPattern || part.AllShortestPathsPattern || len(part.PatternElements) < 5 {
+		return nil, nil, false
+	}
+	cp := *part
+	cp.PatternElements = nil
+	for i, el := range part.PatternElements {
+		ne := &cypher.PatternElement{}
+		switch t := el.Element.(type) {
+		case *cypher.NodePattern:
+			c := *t
+			if c.Variable == nil {
+				c.Variable = &cypher.Variable{Symbol: fmt.Sprintf("%s%d", syntheticPrefix, i)}
+			}
+			ne.Element = &c
+		case *cypher.RelationshipPattern:
+			c := *t
+			if c.Variable == nil {
+				c.Variable = &cypher.Variable{Symbol: fmt.Sprintf("%s%d", syntheticPrefix, i)}
+			}
+			ne.Element = &c
+		default:
+			return nil, nil, false
+		}
+		cp.PatternElements = append(cp.PatternElements, ne)
+	}
+	pre := cp
+	pre.Variable = nil
+	pre.PatternElements = cp.PatternElements[:len(cp.PatternElements)-2]
+	return &cp, &pre, true
+}
+
+// optionalLastStepOnly evaluates OPTIONAL MATCH the way the translator emits a multi-step one: the leading steps are
+// joined to the incoming rows with an inner join and only the last step with a left join. A row whose leading steps
+// do not match disappears; every match of the leading steps that the last step cannot extend yields a row with the
+// last step's variables null.
+func (e *Evaluator) optionalLastStepOnly(m *cypher.Match, named, prefix *cypher.PatternPart, rows []Env) ([]Env, error) {
+	prefixVars := map[string]bool{}
+	for _, v := range patternVariables([]*cypher.PatternPart{prefix}) {
+		prefixVars[v] = true
+	}
+	strip := func(env Env) Env {
+		out := Env{}
+		for k, v := range env {
+			if !strings.HasPrefix(k, syntheticPrefix) {
+				out[k] = v
+			}
+		}
+		return out
+	}
+	var next []Env
+	for _, r := range rows {
+		restrict := map[string]bool{}
+		for k := range r {
+			restrict[k] = true
+		}
+		for k := range prefixVars {
+			restrict[k] = true
+		}
+		extended := map[string]bool{}
+		var innerErr error
+		err := e.matchPattern([]*cypher.PatternPart{named}, r, func(env Env) bool {
+			if m.Where != nil {
+				v, err := e.Eval(m.Where, env)
+				if err != nil {
+					innerErr = err
+					return false
+				}
+				if v != true {
+					return true
+				}
+			}
+			extended[envKey(env, restrict)] = true
+			next = append(next, strip(env))
+			return true
+		})
+		if err == nil {
+			err = innerErr
+		}
+		if err != nil {
+			return nil, err
+		}
+		err = e.matchPattern([]*cypher.PatternPart{prefix}, r, func(env Env) bool {
+			if extended[envKey(env, restrict)] {
+				return true
+			}
+			ext := env.clone()
+			for _, v := range patternVariables([]*cypher.PatternPart{named}) {
+				if _, bound := ext[v]; !bound {
+					ext[v] = nil
+				}
+			}
+			next = append(next, strip(ext))
+			return true
+		})
+		if err != nil {
+			return nil, err
+		}
+	}
+	return next, nil
 }
